@@ -150,7 +150,7 @@ let run (_prefix : string) (cfg : config) (parts : string list) (_src : string)
           let r = match sem_tie (var_prefix cfg) (plus_name cfg)
                           (fun m -> match csi_get cfg m with Some _ -> true | None -> false)
                           (fun m -> allows_literal_callers cfg m)
-                          (fun m -> match csi_get cfg m with Some x -> x.m_awc | None -> false) i o with
+                          (fun m -> match csi_get cfg m with Some x -> x.m_awc | None -> false) (plus_enabled cfg) i o with
             | TieNotCore -> "not-core" | TieNoOutput -> "no-output" | TieAgree -> "agree" | TieDiffer -> "differ" in
           [ ("semtie", JS r) ]
       | _, _ -> []) in
